@@ -19,8 +19,10 @@ Cell(wb, sh, c, r) == IF <<sh, c, r>> \in DOMAIN wb.cells THEN wb.cells[<<sh, c,
 \* reference folds used by probe formulas (the full aggregate family is XlAgg)
 \* balanced recursion: ranges of several hundred cells would overflow TLC's stack otherwise
 \* (logical values and dates inside a range: Excel ignores the former, no property fixes either - left open)
-SumItem(h) == IF h.t \in {"err", "num"} THEN h ELSE IF h.t \in {"date", "bool"} THEN Open ELSE Whole(0)
-SumPair(l, r) == IF l.t = "err" THEN l ELSE IF r.t = "err" THEN r
+SumItem(h) == IF h.t \in {"err", "anyerr", "num"} THEN h ELSE IF h.t \in {"date", "bool", "open"} THEN Open ELSE Whole(0)
+\* (an undetermined element to the left of an error may itself be an error that would win)
+SumPair(l, r) == IF l.t \in {"err", "anyerr"} THEN l
+                 ELSE IF r.t \in {"err", "anyerr"} THEN (IF l.t = "open" THEN Open ELSE r)
                  ELSE IF l.t = "open" \/ r.t = "open" THEN Open ELSE RAdd(l, r)
 RECURSIVE SumRange(_, _, _)
 SumRange(xs, i, j) == \* numbers only; text and blanks in ranges are ignored; leftmost error wins
@@ -33,6 +35,7 @@ RECURSIVE CountRange(_, _, _)
 CountRange(xs, i, j) == IF i > j THEN 0 ELSE IF i = j THEN NonBlank(xs[i])
                         ELSE LET m == (i + j) \div 2 IN CountRange(xs, i, m) + CountRange(xs, m + 1, j)
 CountNonBlank(xs) == CountRange(xs, 1, Len(xs))
+AnyOpenIn(xs) == \E i \in 1..Len(xs) : xs[i].t \in {"open", "anyerr"}
 
 RECURSIVE FlatVals(_)
 FlatVals(args) == \* arguments (scalars / arrays) to one sequence of scalars, row-major
@@ -42,8 +45,11 @@ FlatVals(args) == \* arguments (scalars / arrays) to one sequence of scalars, ro
 
 \* scalar arguments of SUM are coerced (numeric text, booleans); range elements are not
 SumArgs(args) ==
+    \* (text that is no number, written as an argument: Excel says #VALUE!, tests/xlfunctions/test_math.py pins SUM('foo') = 0 -
+    \* listed under "left open" for C14; numeric text, logical values and blanks are converted, C08)
     LET Co(x) == IF x.t = "arr" THEN x
-                 ELSE IF x.t \in {"txt", "bool", "blank"} THEN ToNum(x) ELSE x
+                 ELSE IF x.t = "txt" THEN (LET r == ToNum(x) IN IF r.t = "err" THEN Open ELSE r)
+                 ELSE IF x.t \in {"bool", "blank"} THEN ToNum(x) ELSE x
         cs == [i \in 1..Len(args) |-> Co(args[i])]
     IN IF \E i \in 1..Len(cs) : cs[i].t = "open" THEN Open ELSE SumSeq(FlatVals(cs))
 
@@ -52,7 +58,7 @@ SameNameIgnoringCase(a, b) == UpperSeq(NameCodes(a)) = UpperSeq(NameCodes(b))
 
 EvalCallStrict(f, vals) ==
     CASE f = "SUM"    -> SumArgs(vals)
-      [] f = "COUNTA" -> Whole(CountNonBlank(FlatVals(vals)))
+      [] f = "COUNTA" -> IF AnyOpenIn(FlatVals(vals)) THEN Open ELSE Whole(CountNonBlank(FlatVals(vals)))
       [] f \in {"MAX", "MIN", "AVERAGE"} -> (LET fe == FirstErr(FlatVals(vals)) IN IF fe.t = "err" THEN fe ELSE Open)   \* XlAgg has the values
       [] OTHER        -> LibCall(f, vals)          \* every modelled function family
 
@@ -113,5 +119,10 @@ Eval(a, sh, wb) ==
                ELSE IF \A k \in 1..Len(es) : tr[k] = "skip" THEN Open
                ELSE IF a.f = "AND" THEN Bool(\A k \in 1..Len(es) : tr[k] # "f")
                ELSE Bool(\E k \in 1..Len(es) : tr[k] = "t")
+      \* SUM: a text or logical value reached through a single-cell REFERENCE is not a literal argument (Excel ignores it
+      \* there, as in a range, while the same value written in the formula is converted): no property fixes it - left open
+      [] a.k = "call" /\ a.f = "SUM" /\ (\E i \in 1..Len(a.args) : a.args[i].k \in {"ref", "name"}
+                                             /\ Eval(a.args[i], sh, wb).t \in {"txt", "bool"}) ->
+            LET fe == FirstErr(FlatVals(EvalArgs(a.args, sh, wb))) IN IF fe.t = "err" THEN fe ELSE Open
       [] a.k = "call" -> EvalCallStrict(a.f, EvalArgs(a.args, sh, wb))
 =============================================================================
